@@ -5,6 +5,8 @@ The whole left half is simulated: SimKernel produces the event sequence; the wri
 size mod 8, stackshot filler holding decoy thread-map/event tags, gaps before event tags, and a seeded multiset and
 order of metadata/log blocks.  Oracle: conservation and order of events across chunk boundaries, events before
 logs, tables and exposed attributes equal to what the writer serialised."""
+import copy
+
 from .. import kernel, records, tool, worlds
 from ..disk import SimReader
 from ..runner import digest_of
@@ -17,14 +19,16 @@ CHUNK = 50
 PROBES = ['same_object_abandoned_in_logs', 'tag_straddles_buffer_boundary', 'large_capture', 'special_record', 'partial_tag_prefix_before_tag', 'earlier_dump_other_parser_object', 'multi_chunk', 'empty_chunk', 'cut_inside_window', 'cut_inside_lookup', 'decoy_tag_in_stackshot', 'gap_before_event_tag',
           'header_plist_unaligned', 'two_kext_blocks', 'two_dyld_blocks', 'two_code_blocks', 'two_log_blocks', 'unpadded_last_block',
           'log_extends_tables', 'log_without_pid', 'strings_block_before_logs', 'xml_plists', 'no_blocks', 'unknown_block',
-          'log_with_tai', 'cli_run']
+          'log_with_tai', 'cli_run', 'log_argument_not_available', 'log_message_several_segments']
 RULE = ('one run = one simulated v3 dump (1..3 SimKernel threads, 0..60 records in 1..5 chunks, thread map with duplicate keys, '
         'seeded metadata/log blocks) parsed by the real KdBufParser and by PyKdebugParser.kevents/os_log_events; non-trivial = '
         '>= 2 event chunks or >= 2 blocks of one list-valued kind or >= 1 log that extends the tables; distinct = distinct '
         'history digest')
 SHAPE_MEASURE = 'distinct (number of chunks, empty chunk present, block kind order) shapes'
 ASSUMPTIONS = ['the v3 layout written is the layout this parser reads (tags, chunk header of size + 8 bytes, blocks padded to 8)',
-               'for a log that names a process and a thread but has no pid key, both "extends with pid 0" and "does not extend" are accepted']
+               'for a log that names a process and a thread but has no pid key, both "extends with pid 0" and "does not extend" are accepted',
+               'a decomposed-message argument marked not available (availability 0..2) may carry an object reference that the string '
+               'index does not list; such a reference is not resolved, and whether a resolvable one is shown is left open']
 STR_FIELDS = {'cm': 'composed_message', 'p': 'process', 'send': 'sender', 'sub': 'subsystem', 'cat': 'category',
               'f': 'format_string', 'pip': 'process_image_path', 'sip': 'sender_image_path', 'sn': 'signpost_name'}
 
@@ -146,7 +150,7 @@ def execute(scn):
         # lengthen the stackshot filler so that a MORE_EVENTS tag starts `align` bytes before a multiple of 4096 / 8192
         hdrs = [s_ for n_, s_, e_ in layout if n_ == 'chunkhdr'][1:]
         if hdrs:
-            import copy
+
             w = copy.deepcopy(w)
             pad = (-(hdrs[0] + scn['align'])) % 8192
             w['filler1'] = ('5a' * pad) + w.get('filler1', '')
@@ -280,6 +284,20 @@ def execute(scn):
                     if getattr(lg, field) != wantv:
                         bad('log-field', field, 'log %d: %s is %r, want %r' % (i, field, getattr(lg, field), wantv))
                         break
+                if 'dm' in raw:
+                    wantdm, open_ = worlds.dm_model(raw['dm'], strings)
+                    gotdm = copy.deepcopy(lg.decomposed_message)
+                    if open_ and isinstance(gotdm, dict):
+                        bump('probe:log_argument_not_available')
+                        for si in open_:
+                            try:
+                                gotdm['segments'][si]['arg'].pop('object_representation', None)
+                            except (KeyError, IndexError, TypeError, AttributeError):
+                                pass
+                    if gotdm != wantdm:
+                        bad('log-field', 'decomposed_message', 'log %d: decomposed message is %r, want %r' % (i, gotdm, wantdm))
+                    if len(raw['dm'].get('seg', [])) >= 2:
+                        bump('probe:log_message_several_segments')
                 if lg.thread_identifier != raw['tid'] or lg.process_identifier != raw.get('pid', 0):
                     bad('log-field', 'ids', 'log %d: tid/pid %r/%r want %r/%r' % (i, lg.thread_identifier, lg.process_identifier, raw['tid'], raw.get('pid', 0)))
         # tables
